@@ -280,6 +280,8 @@ class Acceptor:
             if (c.nc or c.fw) and not e.flags_ok:
                 skp.append('flagged-known')
             cnt[c.tag] = cnt.get(c.tag, 0) + 1
+            if c.nc and e.max is not None and cnt[c.tag] > e.max:
+                rej.append('repeat-nc-flagged')      # a repeat whose later occurrence carries the non-critical flag (still a repeat; own reason for the witness class)
             if e.pos == 'first' and seen_known:
                 rej.append('position:not-first')
             if last_seen:
@@ -343,7 +345,7 @@ def decide(rej, skp, ignore_skips=()):
     if s:
         return SKIP, s[0]
     if rej:
-        return REJECT, rej[0]
+        return REJECT, ('repeat-nc-flagged' if 'repeat-nc-flagged' in rej else rej[0])
     return ACCEPT, ''
 
 
@@ -397,6 +399,8 @@ LEX_CASES = {
            ('2-byte', b't\xc3\xb5nu\0'), ('3-byte', b'\xe2\x82\xac\0'), ('4-byte', b'\xf0\x9f\x98\x80\0'), ('stray-continuation', b'a\x80\0'), ('stray-continuation-bf', b'\xbfz\0'),
            ('truncated-2', b'a\xc3\0'), ('truncated-3', b'\xe2\x82\0'), ('truncated-4', b'\xf0\x9f\x98\0'), ('lead-then-ascii', b'\xc3x\0'), ('lead-then-lead', b'\xc3\xc3\xb5\0'),
            ('extra-continuation', b'\xc3\xb5\xb5\0'), ('lead-f8', b'\xf8\x88\x80\x80\x80\0'), ('lead-fc', b'\xfc\x84\x80\x80\x80\x80\0'), ('lead-fe', b'\xfe\0'), ('lead-ff', b'a\xffb\0'),
+           ('lead-f8-3-continuations', b'\xf8\x88\x80\x80\0'), ('lead-fb-3-continuations', b'x\xfb\xbf\xbf\xbfy\0'), ('lead-ff-3-continuations', b'\xff\x80\x80\x80\0'),
+           ('lead-fe-1-continuation', b'\xfe\x80\0'), ('lead-f8-2-continuations', b'\xf8\x80\x80\0'),
            ('lead-f5', b'\xf5\x80\x80\x80\0'), ('lead-f7', b'\xf7\xbf\xbf\xbf\0'), ('overlong-c0', b'\xc0\x80\0'), ('overlong-e0', b'\xe0\x80\x80\0'), ('surrogate', b'\xed\xa0\x80\0'),
            ('beyond-10ffff', b'\xf4\x90\x80\x80\0'), ('max-f4', b'\xf4\x8f\xbf\xbf\0'), ('long-300', b'x' * 300 + b'\0')],
     IMPRINT: [(('alg-%d' % a), _imp(a)) for a in sorted(ALG)] +
@@ -413,6 +417,37 @@ LEX_CASES = {
 LEX_CASES[TIME] = LEX_CASES[INT]
 LEX_CASES[UTF8NZ] = LEX_CASES[UTF8]
 UNKNOWN_PAYLOADS = [b'', b'\x01\x02\x03', b'\x01\x01\x00\x02\x02\xff\xff', b'\xff' * 5, bytes(40)]
+
+
+def minimal_value(e, depth=0):
+    """smallest schema-valid value of an element (schema-aware construction); None when this project cannot build one (DER, 0x804)"""
+    k = e.kind
+    if k in (INT, TIME):
+        return b'\x01'
+    if k == IMPRINT:
+        return _imp(1)
+    if k in (UTF8, UTF8NZ):
+        return b'a\0'
+    if k == OCTETS:
+        return b'\x01'
+    if k == LEGACY:
+        return bytes([3, 0, 2]) + b'GT' + bytes(24)
+    if k == COMP:
+        S = SCHEMAS[e.sub]
+        kids, have = [], set()
+        for x in S.entries:
+            n = x.min
+            if n == 0 and x.least and x.least not in have:
+                n = 1
+            if n and x.least:
+                have.add(x.least)
+            for _ in range(n):
+                v = minimal_value(x, depth + 1)
+                if v is None:
+                    return None
+                kids.append(T(x.tag, v))
+        return kids
+    return None
 
 
 class Mut:
@@ -447,6 +482,16 @@ def mutations(root, sname, top_level='all', thorough=False, skip_inside=()):
                 kids.insert(pos, el)
                 yield Mut('ins-nc' if nc else 'ins-crit', path + (tag,), 'unknown', False, in_meta, in_pub, 'pos=%d/%d' % (pos, len(kids) - 1), S.name)
                 del kids[pos]
+        # ---- schema-aware construction: a minimal valid instance of every element of the level at the front, in the middle, at the end
+        if not few:
+            for e2 in S.entries:
+                v = minimal_value(e2)
+                if v is None:
+                    continue
+                for pos in sorted({0, len(kids) // 2, len(kids)}):
+                    kids.insert(pos, T(e2.tag, v))
+                    yield Mut('ins-known', path + (e2.tag,), e2.kind, e2.max == 1, in_meta or e2.sub == 'metadata', in_pub, 'pos=%d/%d' % (pos, len(kids) - 1), S.name)
+                    del kids[pos]
         for i in range(len(kids)):
             k = kids[i]
             e = S.bytag.get(k.tag)
@@ -486,6 +531,15 @@ def mutations(root, sname, top_level='all', thorough=False, skip_inside=()):
                 kids[i], kids[i + 1] = kids[i + 1], kids[i]
                 yield mk('swap')
                 kids[i], kids[i + 1] = kids[i + 1], kids[i]
+            # move to the front / to the end
+            if i > 1:
+                kids.insert(0, kids.pop(i))
+                yield mk('move', 'to-front')
+                kids.insert(i, kids.pop(0))
+            if i < len(kids) - 2:
+                kids.append(kids.pop(i))
+                yield mk('move', 'to-end')
+                kids.insert(i, kids.pop())
             if not few:
                 # retag: every tag of the level's alphabet, unknown tags (critical as is, and flagged non-critical)
                 old = k.tag
